@@ -121,4 +121,11 @@ func init() {
 		NotDecided: "the arithmetic of the counters as such; agreement with LLVM's own numbering beyond the traversal order LLVM documents.",
 		Rules:      []RuleUse{{Rule: "NUM-SHAPE"}, {Rule: "NUM-PREFIX"}, {Rule: "NUM-REDERIVE"}, {Rule: "NUM-AUTH"}, {Rule: "RACE-2"}, {Rule: "RACE-3"}},
 	})
+	addProperty(&Property{
+		ID:         "C11",
+		Title:      "Names and strings are escaped losslessly and unambiguously",
+		Decided:    "one numeric-name predicate at every site that decides ID vs name, in encoders, decoders and identifier constructors (ENC-NUM); no raw string field reaches a printer's output without an LLVM escaper (ENC-STR); no undecoded token text reaches the IR (ENC-TEXT); per token class the sigil written equals the sigil stripped, and every encoder is applied only to fields of its own class (ENC-PAIR); decoders return the denoted bytes without formatting quote characters into names (ENC-RAW).",
+		NotDecided: "losslessness and injectivity of the escaping functions over all byte strings (Escape/Unescape are loops over runtime bytes; no structural rule establishes that they are inverse); LLVM's own reading of the tokens.",
+		Rules:      []RuleUse{{Rule: "ENC-NUM"}, {Rule: "ENC-STR"}, {Rule: "ENC-TEXT"}, {Rule: "ENC-PAIR"}, {Rule: "ENC-RAW"}},
+	})
 }
